@@ -15,8 +15,8 @@ for f in sorted(glob.glob(os.path.join(VERIF, "seeded", "*", "meta.json"))):
     caught = []
     for p, c in sorted(m.get("checks", {}).items()):
         if c.get("caught"):
-            v = c.get("violations", [""])[0]
-            kind = "no-failing-input-found" if "no-failing-input-found" in v else "failing input"
+            vs = c.get("violations", [""])
+            kind = "failing input" if any("no-failing-input-found" not in v for v in vs) else "no-failing-input-found"
             caught.append("%s (%s)" % (p, kind))
         else:
             caught.append("%s MISSED" % p)
